@@ -209,7 +209,18 @@ def prop_C05(run):
     run.rules_run += ["TAB-op tokens <-> precedence levels <-> evaluator primitives <-> num-bigint operations, literal radix tables", "LIM4 checked primitives (caps, zero tests)"]
 
 
+def prop_C04(run):
+    import rules_rng
+    rules_rng.range_tables(run)
+    rules_rng.min_size_shape(run)
+    rules_rng.data_width(run)
+    rules_rng.typenames(run)
+    run.rules_run += ["RNG decision tables of the uN/sN/iN predicates over the atoms sign, min_size<=>N, N==0 (abstractly interpreted from MIR) against the statement's formula",
+                      "RNG data directive predicate, no truncation before the test, constrained size, typename tables"]
+
+
 PROPS = {
+    "C04": prop_C04,
     "C05": prop_C05,
     "C19": prop_C19,
     "C13": prop_C13,
